@@ -349,9 +349,9 @@ theorem createPDR_pres (s : Sess) (ie : RuleIE) (c : Ctx) :
     Pres s (s.createPDR ie c).1 c (s.createPDR ie c).2 := by
   unfold Sess.createPDR
   simp only []
-  apply pres_one_call s ({ s with urrs := (ie.urrs.foldl bumpRef s.urrs), pdrs := (alSet s.pdrs (ie.id.getD 0) ie.urrs.eraseDups) } : Sess) c _ rfl rfl
+  apply pres_one_call s ({ s with urrs := (ie.urrs.eraseDups.foldl bumpRef s.urrs), pdrs := (alSet s.pdrs (ie.id.getD 0) ie.urrs.eraseDups) } : Sess) c _ rfl rfl
   intro dp hs hnat
-  have hs' : SInv ({ s with urrs := (ie.urrs.foldl bumpRef s.urrs), pdrs := (alSet s.pdrs (ie.id.getD 0) ie.urrs.eraseDups) } : Sess) dp := by
+  have hs' : SInv ({ s with urrs := (ie.urrs.eraseDups.foldl bumpRef s.urrs), pdrs := (alSet s.pdrs (ie.id.getD 0) ie.urrs.eraseDups) } : Sess) dp := by
     apply sinv_urrs_same s _ dp (by rfl) hs (by rfl) (by rfl) (by rfl)
     · intro i hi; exact (keys_alSet _ _ _ _).mpr (Or.inr hi)
     · exact foldl_bumpRef_keys _ _
